@@ -220,7 +220,7 @@ def run_shard(sh):
         else:
             edges = [(a, b, rng.choice(topo.CLOSING_KINDS)) for a, b in es]
         flavour = rng.choice(["dataclass", "dataclass", "namedtuple", "typeddict"])
-        tp = topo.Topology(n, edges, nested=rng.random() < 0.25, flavour=flavour, tag=f"c07_{sh.shard}_{i}", payload=rng.random() < 0.8)
+        tp = topo.Topology(n, edges, nested=rng.random() < 0.25, flavour=flavour, tag=f"c07_{sh.shard}_{i}", payload=rng.random() < 0.8, style=rng.choice(["postponed", "quoted"]))
         tp.build()
         label = f"{flavour} {'nested ' if tp.nested else ''}{n}-class {edges}"
         try:
